@@ -19,8 +19,9 @@ theorem P_limits : ∀ s, fork4.le (P.limit s) (P.limit (s + 1)) = true := by
 
 /-- in set 0 every vote of the example is for the handover block itself -/
 theorem guard0 (σ : MState (Fin 4)) (t : State (Fin 4)) (h : ∀ m ∈ t.sent, m.block = (1 : Fin 4)) :
-    ∀ m, m ∈ t.sent → m ∉ (σ 0).sent → (P.vs 0).honest m.voter → okVote P fork4 σ 0 m.block := by
-  intro m hm _ _
+    ∀ m, m ∈ t.sent → m ∉ (σ 0).sent → (P.vs 0).honest m.voter → m.stage = .precommit →
+      okVote P fork4 σ 0 m.block := by
+  intro m hm _ _ _
   rw [h m hm]
   exact ⟨fun h => h, fun p hp => by omega⟩
 
@@ -72,7 +73,7 @@ theorem q14 : MReachable P fork4 μ14 :=
   .step _ _ q13 (MStep.mk μ13 1 u1
     (Step.prevote State.init 0 3 (by decide) (by decide) (by intro q hq; simp [State.init] at hq))
     (by
-      intro m hm _ _
+      intro m hm _ _ _
       have hb : m.block = (3 : Fin 4) := by
         have : ∀ m ∈ u1.sent, m.block = (3 : Fin 4) := by decide
         exact this m hm
